@@ -1063,6 +1063,9 @@ INVARIANTS
     Exclusive
     NoOverrun
     Conserved
+    GhostAgrees
+    GhostTakeSafe
+    GhostConserved
 CHECK_DEADLOCK FALSE
 """
 
